@@ -324,10 +324,11 @@ Definition is_identity_method (m : string) : bool :=
 Definition builtin_call (f : string) (args : list val) : option val :=
   let dec (w : nat) (be : bool) :=
     match args with
-    | [VBlk b] => if length b =? w / 8 then Some (VInt w (if be then be_decode b else le_decode b)) else None
+    | [VBlk b] => if len_eq (length b) (w / 8) then Some (VInt w (if be then be_decode b else le_decode b)) else None
     | _ => None
     end in
-  if f =s "u32::from_be_bytes" then dec 32 true
+  if f =s "InOut::from" then (match args with [v] => Some v | _ => None end)   (* a view of (input, output), like `.into()` *)
+  else if f =s "u32::from_be_bytes" then dec 32 true
   else if (f =s "u32::from_le_bytes") || (f =s "u32::from_ne_bytes") then dec 32 false
   else if f =s "u64::from_be_bytes" then dec 64 true
   else if (f =s "u64::from_le_bytes") || (f =s "u64::from_ne_bytes") then dec 64 false
@@ -837,6 +838,17 @@ Section Interp.
                     match as_data e r with
                     | Some (VCipher enc dec) =>
                         match vals_of e rs with
+                        | Some [a; b] =>                         (* `cipher.encrypt_block_b2b(src, &mut dst)` *)
+                            let m' := if m =s "encrypt_block_b2b" then Some "encrypt_block"
+                                      else if m =s "decrypt_block_b2b" then Some "decrypt_block" else None in
+                            match m' with
+                            | Some m' =>
+                                match cipher_call e (VCipher enc dec) m' (VTuple [a; b]) with
+                                | Some e' => Some (Norm e' (RV VUnit))
+                                | None => None
+                                end
+                            | None => None
+                            end
                         | Some [a] =>
                             (* an argument given as a place (e.g. `self.iv.into()`) is passed by reference *)
                             let a' := match a, rs with
